@@ -6,6 +6,8 @@ Import ListNotations.
 Open Scope Q_scope.
 
 Definition tol : Q := 1 # 1000000000.
+(** absolute tolerances are only ever used for sums that may cancel: 1e-12 x the magnitude of the summands *)
+Definition ctol : Q := 1 # 1000000000000.
 Definition close (a b : Q) : bool := Qclose tol 0 a b.
 (** observed double [e] (an uncertainty, so >= 0) against the model's square *)
 Definition close_sqrt (sq_model e : Q) : bool := Qle_bool 0 e && Qclose (2 * tol) 0 sq_model (e * e).
@@ -28,9 +30,9 @@ Definition close_opt (m : option Q) (o : option Q) : bool :=
 Record obs := { o_raw : list Q; o_mean : Q; o_std : Q; o_eom : Q; o_wmean : option Q; o_perr : option Q;
                 o_value : Q; o_error : Q }.
 
-(** mean-like numbers may cancel to (nearly) 0: absolute tolerance 1e-9 x the mean magnitude of the readings *)
+(** mean-like numbers may cancel to (nearly) 0: absolute tolerance 1e-12 x the mean magnitude of the readings *)
 Definition mean_abs (xs : list Q) : Q := qsum (map Qabs xs) / qlen xs.
-Definition close_mean (xs : list Q) (a b : Q) : bool := Qclose tol (tol * mean_abs xs) a b.
+Definition close_mean (xs : list Q) (a b : Q) : bool := Qclose tol (ctol * mean_abs xs) a b.
 Definition close_mean_opt (xs : list Q) (m o : option Q) : bool :=
   match m, o with
   | Some x, Some y => close_mean xs x y
@@ -75,7 +77,7 @@ Fixpoint check_sels (k c : Q) (offs : list Q) (r : rmv) (h : list (sel * bool * 
   | (o, warned, ob, (dv, de), mc) :: h' =>
       let '(r1, w) := sel_step r o in
       Bool.eqb w warned && check_obs r1 ob
-      && Qclose tol (tol * (Qabs k * mean_abs (r_xs r1) + Qabs (k * r_value r1) + Qabs c)) (lin_value k c r1) dv && close_sqrt (lin_err_sq k r1) de
+      && Qclose tol (ctol * (Qabs k * mean_abs (r_xs r1) + Qabs (k * r_value r1) + Qabs c)) (lin_value k c r1) dv && close_sqrt (lin_err_sq k r1) de
       && check_mc k c ob offs mc
       && check_sels k c offs r1 h'
   end.
